@@ -623,10 +623,27 @@ pub fn t_gen(p: P, idx: u64) -> impl Fn() {
             cfg.toll = Uint128::new(d / 100);
             cfg.spread = Uint128::new(d / 50);
         }
+        let two = g.chance(20);
+        if two {
+            cfg.n_vamms = 2;
+        }
         let mut r = p.run_cfg(cfg);
         symrt::set_full(false);
+        if g.chance(15) {
+            let f = Uint128::new(g.pick(&[d / 20, d / 10, d / 5]));
+            for vi in 0..r.w.vamms.len() {
+                r.w.update_vamm(vi, None, None, None, None, Some(f), None);
+            }
+        }
+        if g.chance(12) {
+            let cap = Uint128::new(g.pick(&[5u128, 15, 40]) * d);
+            r.w.update_vamm(0, Some(cap), None, None, None, None, None);
+            if g.chance(50) {
+                r.w.engine_exec(OWNER, &margined_perp::margined_engine::ExecuteMsg::AddWhitelist { address: ALICE.into() });
+            }
+        }
         let traders = [ALICE, BOB, CAROL];
-        let n = 4 + (g.next() % 4) as usize;
+        let n = 4 + (g.next() % 5) as usize;
         let mut desc = String::new();
         for i in 0..n {
             let last = i + 1 == n;
@@ -634,39 +651,51 @@ pub fn t_gen(p: P, idx: u64) -> impl Fn() {
                 symrt::set_full(true);
             }
             let who = g.pick(&traders);
+            r.vi = if two && g.chance(40) { 1 } else { 0 };
+            let vi = r.vi;
             let k = g.next() % 100;
-            let op = if k < 42 || i == 0 {
+            let op = if k < 40 || i == 0 {
                 let side = if g.chance(50) { Side::Buy } else { Side::Sell };
                 let units = g.pick(&[1u128, 3, 5, 10, 20, 25, 40, 60]);
                 let lev = Uint128::new(g.pick(&[1u128, 2, 2, 5, 10]) * d);
                 let margin = if last { amount("gm", d, false, units) } else { Uint128::new(units * d) };
-                let has = r.w.position(0, who).map(|x| !x.size.value.is_zero()).unwrap_or(false);
+                let has = r.w.position(vi, who).map(|x| !x.size.value.is_zero()).unwrap_or(false);
                 let funds = if p.native && !has { Some(native_open_funds(&r.w, margin, lev)) } else { None };
                 Op::Open { who, side, margin, lev, limit: Uint128::zero(), funds }
-            } else if k < 54 {
+            } else if k < 52 {
                 Op::Close { who, limit: Uint128::zero() }
-            } else if k < 60 {
+            } else if k < 58 {
                 let a = if last { amount("gd", d, false, 5) } else { Uint128::new(g.pick(&[1u128, 5, 30]) * d) };
                 Op::Deposit { who, amount: a, funds: if p.native { Some(a) } else { None } }
-            } else if k < 70 {
+            } else if k < 68 {
                 let a = if last { amount("gw", d, false, 2) } else { Uint128::new(g.pick(&[1u128, 2, 10]) * d) };
                 Op::Withdraw { who, amount: a }
-            } else if k < 84 {
+            } else if k < 82 {
                 Op::Liquidate { by: g.pick(&[LIQ, EVE]), trader: who, limit: Uint128::zero() }
-            } else {
+            } else if k < 94 {
                 // a funding settlement: a day passes, the oracle moves
                 r.w.next_block(86_400);
                 let price = Uint128::new(g.pick(&[3u128, 8, 10, 12, 30]) * d);
                 let now = r.w.now();
                 r.w.set_oracle(price, now);
                 Op::PayFunding { by: EVE }
+            } else {
+                // configuration / oracle change between operations, then a trade
+                if g.chance(50) {
+                    let now = r.w.now();
+                    r.w.set_oracle(Uint128::new(g.pick(&[6u128, 9, 11, 16]) * d), now);
+                } else {
+                    r.w.update_engine(Some(Uint128::new(d / 5)), Some(Uint128::new(g.pick(&[d / 20, d / 10, d / 6]))), None, None);
+                }
+                Op::Close { who, limit: Uint128::zero() }
             };
-            desc += &format!("{}{} ", op.name(), if last { "*" } else { "" });
+            desc += &format!("{}@{}{} ", op.name(), vi, if last { "*" } else { "" });
             r.step(op);
             if g.chance(75) {
                 r.w.next_block(g.pick(&[15u64, 15, 900, 1000]));
             }
         }
+        r.vi = 0;
         symrt::log_event(format!("history: {}", desc));
     }
 }
